@@ -184,7 +184,7 @@ theorem serveFile_noslash (look : Bytes → Node) (dir urlPath name : Bytes) (re
 
 theorem capture_some (pfx : Bytes) (exts : Option (List Bytes)) (p v : Bytes)
     (h : capture pfx exts p = some v) :
-    p = pfx ++ slash :: v ∧ v ≠ [] ∧ extsOk exts v = true := by
+    p = routeStatic pfx ++ v ∧ v ≠ [] ∧ extsOk exts v = true := by
   unfold capture at h
   split at h
   · rename_i hp
@@ -434,7 +434,7 @@ theorem serve_file_cases (look : Bytes → Node) (m : Mount) (q : Req) (hk : m.k
   dsimp only
   rw [hk]
   dsimp only
-  by_cases h : formatPath (if m.enc = true then q.esc else q.path) = formatPath m.pfx
+  by_cases h : formatPath m.strict (if m.enc = true then q.esc else q.path) = formatPath m.strict m.pfx
   · right; rw [if_pos h]
   · left; rw [if_neg h]
 
